@@ -1,4 +1,6 @@
 """C28 — Manifest generation is deterministic, idempotent, parseable and atomic."""
+import errno
+import gc
 import hashlib
 import os
 import resource
@@ -15,6 +17,7 @@ OBLIGATIONS = [
     "Pkgcore.C28.manifest_order_independent",
     "Pkgcore.C28.manifest_idempotent",
     "Pkgcore.C28.manifest_write_atomic",
+    "Pkgcore.C28.manifest_failed_write_keeps_old",
     "Pkgcore.C28.manifest_inplace_write_counterexample",
     "Pkgcore.C28.manifest_whitespace_name_counterexample",
     "Pkgcore.C28.sortBy_eq_of_perm",
@@ -36,7 +39,9 @@ ASSUMPTIONS = [
 RULE = ("package directories built on disk: 0-4 ebuilds, metadata.xml/ChangeLog/other misc files, a files/ tree with nested directories, hidden files, "
         "empty files, non-ASCII names, plus things that must be skipped (Manifest, CVS/, .svn/, symlinks, a stale .update.Manifest); 0-5 fetchables with "
         "random checksum dicts; random subsets of 8 checksum types; thick and thin; update() run with os.listdir shuffled and the fetchables shuffled, "
-        "then again (must write nothing), parsed back; a subset is crashed (fork + _exit before each os-level operation, SIGXFSZ mid-write). ~3% of "
+        "then again (must write nothing), parsed back; then the package evolves for 1-2 rounds (the file or distfile of the last/first Manifest "
+        "line removed, a random file removed/added/modified, a distfile dropped, everything removed) and the Manifest is regenerated in place; a subset is made to fail at every os-level operation (death before it, error return once, error "
+        "return persistently), by SIGXFSZ mid-write and by exceptions raised from the write itself (RuntimeError, KeyboardInterrupt, OSError). ~3% of "
         "directories contain a name with white space (finding class), ~2% an unexpected subdirectory. "
         "non-trivial = at least 3 covered files in at least 2 of the 4 entry types and at least 2 checksum types")
 
@@ -247,7 +252,8 @@ def run(ctx):
 
     try:
         reqs, meta = [], []
-        ncases = ctx.n(280, 5000)
+        ereqs, emeta = [], []
+        ncases = ctx.n(200, 4000)
         for idx in range(ncases):
             r = rng.random()
             finding = "ws" if r < 0.03 else "baddir" if r < 0.05 else None
@@ -293,8 +299,71 @@ def run(ctx):
                          "fetch": [dict(filename=n, **req_sums(ck["size"], {k: v for k, v in ck.items() if k != "size"})) for n, ck in fetch]})
             reqs.append({"cmd": "c28.parse", "text": text1 if text1 is not None else ""})
             meta.append((case, finding, thin, listing, fetch, old, pkgdir, (ret1, err1, ev1, text1), (ret2, err2, ev2, text2), (ret3, err3, text3), parsed, perr, tmp_left))
+            # ---- the package evolves: files/distfiles go, come or change, and the Manifest is regenerated in place
+            if err1 is None and finding is None and text1 is not None:
+                fetch2 = list(fetch)
+                for rnd in range(rng.choice([1, 1, 2])):
+                    covered = sorted(rel for rel, reg, _, _ in list_dir(pkgdir, ["size"]) if reg and not any(p in EXCLUDES for p in rel.split("/")))
+                    # what the lines of an up-to-date Manifest of the current state name, in file order (computed, not read back)
+                    e_now = expected_py(list_dir(pkgdir, ["size"]), fetch2, thin)
+                    lines = ([("file", "/files/" + n) for n in sorted(e_now["AUX"])] + [("fetch", n) for n in sorted(e_now["DIST"])]
+                             + [("file", "/" + n) for n in sorted(e_now["EBUILD"])] + [("file", "/" + n) for n in sorted(e_now["MISC"])])
+                    k = rng.choice(["remove-last-line", "remove-last-line", "remove-first-line", "remove-random", "add", "modify", "drop-last-fetchable", "remove-all"])
+                    if k in ("remove-last-line", "remove-first-line") and lines:
+                        kind2, what = lines[-1] if k == "remove-last-line" else lines[0]
+                        if kind2 == "fetch":
+                            fetch2 = [x for x in fetch2 if os.path.basename(x[0]) != what]
+                        else:
+                            os.unlink(os.path.join(pkgdir, what.lstrip("/")))
+                    elif k == "remove-random" and covered:
+                        os.unlink(os.path.join(pkgdir, rng.choice(covered).lstrip("/")))
+                    elif k == "add":
+                        with open(os.path.join(pkgdir, rng.choice(["zz-added", "AAA", "mid.txt", "z.ebuild"])), "wb") as f:
+                            f.write(rng.randbytes(7))
+                    elif k == "modify" and covered:
+                        with open(os.path.join(pkgdir, rng.choice(covered).lstrip("/")), "ab") as f:
+                            f.write(b"more")
+                    elif k == "drop-last-fetchable" and fetch2:
+                        fetch2 = sorted(fetch2)[:-1]
+                    elif k == "remove-all":
+                        for rel in covered:
+                            os.unlink(os.path.join(pkgdir, rel.lstrip("/")))
+                        fetch2 = fetch2[:1]
+                    before = read(path)
+                    listing2 = list_dir(pkgdir, chfs)
+                    listing2 = [l for l in listing2 if l[0] != "/Manifest"]
+                    ret4, err4 = do_update(path, fetch2, tuple(chfs), thin, shuffle=True)
+                    text4 = read(path)
+                    try:
+                        parsed4 = canon_parsed(digest.parse_manifest(path)) if text4 is not None else None
+                    except Exception:
+                        parsed4 = "raise"
+                    ereqs.append({"cmd": "c28.text", "thin": thin,
+                                  "scan": [dict(path=rel, reg=reg, **req_sums(size, sums)) for rel, reg, size, sums in listing2],
+                                  "fetch": [dict(filename=n, **req_sums(ck["size"], {kk: v for kk, v in ck.items() if kk != "size"})) for n, ck in fetch2]})
+                    emeta.append((dict(case, then=k, round=rnd, dir_now=sorted(l[0] for l in listing2 if l[1]), fetch_now=[n for n, _ in fetch2]),
+                                  thin, listing2, list(fetch2), before, ret4, err4, text4, parsed4))
             if idx % 50 == 49:
                 shutil.rmtree(os.path.join(root, "r%d" % idx), ignore_errors=True)
+        for (case, thin, listing2, fetch2, before, ret4, err4, text4, parsed4), rep in zip(emeta, ctx.model(ereqs)):
+            ctx.case(case, True, key=repr(case))
+            ctx.count("evolve_" + case["then"])
+            if thin and not fetch2:
+                if text4 != before:
+                    ctx.violation(case, "thin Manifest without distfiles was touched")
+                continue
+            if err4 is not None:
+                ctx.violation(case, f"regenerating after the change raised {err4}")
+                continue
+            exp2 = expected_py(listing2, fetch2, thin)
+            if rep["text"] is not None and text4 != rep["text"]:
+                ctx.mismatch(case, f"Manifest after the change differs from the model's text for the new state ({len(text4 or '')} vs {len(rep['text'])} chars)")
+            if parsed4 != exp2:
+                stale = {t: sorted(set(parsed4[t]) - set(exp2[t])) for t in exp2} if isinstance(parsed4, dict) else parsed4
+                ctx.violation(case, f"after the package changed and the Manifest was regenerated it does not describe the package: entries that should not be there {stale}, "
+                              f"update() returned {ret4}")
+            elif ret4 is not (before != text4):
+                ctx.violation(case, f"update() returned {ret4} but the file {'changed' if before != text4 else 'did not change'}")
         replies = ctx.model(reqs)
         oreqs, ometa = [], []
         for i, (case, finding, thin, listing, fetch, old, pkgdir, u1, u2, u3, parsed, perr, tmp_left) in enumerate(meta):
@@ -398,6 +467,10 @@ def run(ctx):
             exp = expected_py(list_dir(pkgdir, chfs), fetch, thin)
             exp_old = {"DIST": {"old-1.tar": {"size": 1, "sha512": 1}}, "AUX": {}, "EBUILD": {}, "MISC": {}}
             points = [("event", j) for j in range(len(events))] + [("fsize", rng.randrange(0, max(1, len(new_text.encode("utf8"))))) for _ in range(2)]
+            # error returns (once / persistent) from every os-level call, and exceptions raised by the write itself
+            if ci > 0 or not ctx.quick():           # (the 120-file directory is hashed anew on every attempt: crash points only in the quick tier)
+                points += [("fault", j) for j in range(len(events))] + [("persist", j) for j in range(len(events))]
+                points += [("write-raises", nm) for nm in ("RuntimeError", "KeyboardInterrupt", "OSError")]
             for pkind, arg in points:
                 if old_text is None:
                     os.path.exists(path) and os.unlink(path)
@@ -406,19 +479,46 @@ def run(ctx):
                         f.write(old_text)
                 tmp = os.path.join(pkgdir, ".update.Manifest")
                 os.path.exists(tmp) and os.unlink(tmp)
-                pid = os.fork()
-                if pid == 0:
+                crashed, raised = False, None
+                if pkind in ("event", "fsize"):
+                    pid = os.fork()
+                    if pid == 0:
+                        try:
+                            if pkind == "event":
+                                _c24.trace_on(root, crash_at=arg)
+                            else:
+                                signal.signal(signal.SIGXFSZ, signal.SIG_DFL)
+                                resource.setrlimit(resource.RLIMIT_FSIZE, (arg, arg))
+                            do_update(path, fetch, chfs, thin, shuffle=False)
+                        finally:
+                            os._exit(0)
+                    _, status = os.waitpid(pid, 0)
+                    crashed = (os.WIFEXITED(status) and os.WEXITSTATUS(status) == 99) or os.WIFSIGNALED(status)
+                else:
+                    RealAWF = digest.AtomicWriteFile
+                    if pkind == "write-raises":
+                        mk = {"RuntimeError": lambda: RuntimeError("injected"), "KeyboardInterrupt": KeyboardInterrupt,
+                              "OSError": lambda: OSError(errno.EIO, "injected")}[arg]
+
+                        class FaultyAWF(RealAWF):
+                            __slots__ = ()
+
+                            def write(self, data, _mk=mk):
+                                self.raw.write(data[: len(data) // 2])
+                                raise _mk()
+                        digest.AtomicWriteFile = FaultyAWF
+                        _c24.trace_on(root)
+                    else:
+                        _c24.trace_on(root, faults={arg: "oserror" if pkind == "fault" else "persist"})
                     try:
-                        if pkind == "event":
-                            _c24.trace_on(root, crash_at=arg)
-                        else:
-                            signal.signal(signal.SIGXFSZ, signal.SIG_DFL)
-                            resource.setrlimit(resource.RLIMIT_FSIZE, (arg, arg))
-                        do_update(path, fetch, chfs, thin, shuffle=False)
+                        f = [fetchable(n, chksums=dict(ck)) for n, ck in fetch]
+                        digest.Manifest(path, thin=thin).update(f, chfs=chfs)
+                    except BaseException as e:
+                        raised = type(e).__name__
                     finally:
-                        os._exit(0)
-                _, status = os.waitpid(pid, 0)
-                crashed = (os.WIFEXITED(status) and os.WEXITSTATUS(status) == 99) or os.WIFSIGNALED(status)
+                        gc.collect()
+                        _c24.trace_off()
+                        digest.AtomicWriteFile = RealAWF
                 after = read(path)
                 tmp_text = None
                 if os.path.exists(tmp):
@@ -427,9 +527,14 @@ def run(ctx):
                 case = {"crash": pkind, "at": arg, "thin": thin, "old_manifest": old_text is not None, "new_len": len(new_text)}
                 ctx.case(case, True, key=repr((ci, pkind, arg)))
                 ctx.count("crash_" + pkind)
-                ctx.count("crashed" if crashed else "completed")
+                ctx.count("crashed" if crashed else "update_raised" if raised else "completed")
                 if pkind == "event" and not crashed:
                     ctx.mismatch(case, f"the child did not crash at operation {arg}")
+                if raised is not None:
+                    case["update_raised"] = raised
+                    if after != old_text:
+                        ctx.violation(case, f"update() failed with {raised} but the Manifest is no longer the old file "
+                                      f"({None if after is None else len(after)} chars, old {None if old_text is None else len(old_text)})")
                 if after not in (old_text, new_text):
                     ctx.violation(case, f"after the crash the Manifest is neither the complete old nor the complete new file ({None if after is None else len(after)} chars; "
                                   f"old {None if old_text is None else len(old_text)}, new {len(new_text)})")
@@ -440,6 +545,8 @@ def run(ctx):
                             ctx.violation(case, "after the crash the Manifest parses to neither the old nor the new contents")
                     except Exception as e:
                         ctx.violation(case, f"after the crash the Manifest does not parse: {type(e).__name__}")
+                if pkind not in ("event", "fsize"):
+                    continue
                 if pkind == "event":
                     k = 0 if arg == 0 else 3               # ops: creat write close rename; events: creat, rename
                     chunks = [new_text]
